@@ -2,7 +2,7 @@
 """Re-run every stored seeded change against the current checks: tools/run_seeds.py [-j N] [pattern]
 
 Each /verif/seeded/<id>/ is applied to a scratch copy of /repo HEAD (tools/seedcheck.py) and the checks named in its
-meta.json are run; the expected outcome is exit 1 for at least one of them. Prints one line per seed."""
+meta.json are run; the expected outcome is exit 1 for at least one of them - except for the behaviour-preserving refactors (seeded/refactor-*), where exit 1 would be a false alarm. Prints one line per seed."""
 import json
 import os
 import subprocess
@@ -22,7 +22,7 @@ def one(name):
         exits = {k: v["exit"] for k, v in out["checks"].items()}
     except Exception:
         exits = {"error": r.stdout[-200:] + r.stderr[-200:]}
-    return name, exits
+    return name, exits, meta.get("kind", "").startswith("behaviour-preserving")
 
 
 def main():
@@ -34,11 +34,16 @@ def main():
     names = sorted(n for n in os.listdir(os.path.join(ROOT, "seeded")) if not args or args[0] in n)
     bad = 0
     with ThreadPoolExecutor(jobs) as ex:
-        for name, exits in ex.map(one, names):
-            ok = any(v == 1 for v in exits.values())
+        for name, exits, harmless in ex.map(one, names):
+            if harmless:  # a behaviour-preserving refactor: any exit 1 is a FALSE ALARM
+                ok = all(v in (0, 2) for v in exits.values())
+                word = ("no alarm" if ok else "FALSE ALARM") + (" (undecided)" if ok and 2 in exits.values() else "")
+            else:
+                ok = any(v == 1 for v in exits.values())
+                word = "caught" if ok else "NOT CAUGHT"
             bad += not ok
-            print("%-50s %s %s" % (name, "caught" if ok else "NOT CAUGHT", exits), flush=True)
-    print("%d seeds, %d not caught" % (len(names), bad))
+            print("%-50s %s %s" % (name, word, exits), flush=True)
+    print("%d stored changes, %d unexpected outcomes" % (len(names), bad))
     return 1 if bad else 0
 
 
